@@ -31,6 +31,9 @@ extern "C" int __tsan_get_report_stack(void* report, unsigned long idx, void** t
 extern "C" int __tsan_get_report_mop(void* report, unsigned long idx, int* tid, void** addr, int* size, int* write, int* atomic, void** trace, unsigned long trace_size);
 extern "C" void __sanitizer_symbolize_pc(void* pc, const char* fmt, char* out_buf, unsigned long out_buf_size);
 
+extern "C" char __executable_start;
+extern "C" char _end;
+
 namespace {
 std::atomic<long> g_reports{0};
 constexpr int max_kept = 8;
@@ -240,7 +243,14 @@ vf::Outcome run_case(const Case& c, const vf::Options&)
          bool readonly_image = false;
          for (auto& m : maps)
             if (a >= m.lo && a < m.hi) readonly_image = !m.writable && m.file_backed;
-         if (!readonly_image) out.fail("C20:shared-mutable-node", "a node at a writable address is reachable from two live Lexicons");
+         // What two Lexicons may share are process-wide objects: anything with static storage duration in the program
+         // image.  (Today they all lie in a read-only mapping; a constant that is initialised at start-up would lie in
+         // .data/.bss and still be a process-wide constant -- whether anything shared is *written* is ThreadSanitizer's
+         // clause.)  A node on the heap is owned by one Lexicon and must not be reachable from another.
+         const bool static_storage = a >= reinterpret_cast<std::uintptr_t>(&__executable_start) && a < reinterpret_cast<std::uintptr_t>(&_end);
+         if (readonly_image) out.count("shared_nodes_in_read_only_image");
+         else if (static_storage) out.count("shared_nodes_in_writable_static_storage");
+         else out.fail("C20:shared-heap-node", "a node outside the program image (owned by one Lexicon) is reachable from two live Lexicons");
       }
       out.count("nodes_common_to_live_lexicons", common);
    }
